@@ -1,4 +1,4 @@
-PROP = {"engines": [("list", "default", 2000), ("slist", "default", 1500), ("array", "default", 2500), ("deque", "default", 2500), ("pqueue", "default", 1000), ("hashtable", "default", 2000), ("tst", "default", 1000),
+PROP = {"engines": [("list", "default", 2000), ("slist", "default", 1500), ("array", "default", 2500), ("sized", "default", 1500), ("deque", "default", 2500), ("pqueue", "default", 1000), ("hashtable", "default", 2000), ("tst", "default", 1000),
                     ("treetable", "default", 1000), ("rbuf", "default", 400), ("dpool", "default", 600),
                     ("array", "pool-static", 1200), ("array", "pool-dynamic", 1200), ("deque", "pool-static", 1200), ("list", "pool-dynamic", 1000), ("slist", "pool-static", 800),
                     ("hashtable", "pool-dynamic", 1000), ("treetable", "pool-static", 800), ("tst", "pool-dynamic", 800), ("pqueue", "pool-static", 600), ("rbuf", "pool-dynamic", 300)],
